@@ -195,7 +195,6 @@ func (s *Scheme) KeyGen(ctx context.Context, totalParties, threshold int) ([]byt
 type membership struct {
 	universalIdentifiers []UniversalID
 	uID2PID              map[UniversalID]PartyID
-	pID2UID              map[PartyID]UniversalID
 }
 
 func (m *membership) String() string {
@@ -230,17 +229,20 @@ func (m *membership) partyIDsByUniversalIDs(ids []UniversalID) ([]PartyID, error
 	return res, nil
 }
 
-func (m *membership) universalIDByPartyID(id PartyID) UniversalID {
-	return m.pID2UID[id]
+// universalIDsByPartyIDs returns, for the given nodes of a session, which node represents each party.
+func (m *membership) universalIDsByPartyIDs(ids []UniversalID) map[PartyID]UniversalID {
+	res := make(map[PartyID]UniversalID)
+	for _, id := range ids {
+		res[m.partyIDByUniversalID(id)] = id
+	}
+	return res
 }
 
 func computeMembership(mapping map[UniversalID]PartyID) *membership {
-	protocol2universal := make(map[PartyID]UniversalID)
 	universal2Protocol := make(map[UniversalID]PartyID)
 
 	var uIDs []UniversalID
 	for uID, pID := range mapping {
-		protocol2universal[pID] = uID
 		universal2Protocol[uID] = pID
 		uIDs = append(uIDs, uID)
 	}
@@ -249,7 +251,6 @@ func computeMembership(mapping map[UniversalID]PartyID) *membership {
 
 	return &membership{
 		universalIdentifiers: uIDs,
-		pID2UID:              protocol2universal,
 		uID2PID:              universal2Protocol,
 	}
 }
@@ -300,7 +301,7 @@ func (s *Scheme) runDKG(ctx context.Context, membership *membership, dkgProtocol
 
 		// The protocol instance must be initialized before the reliable broadcast instance is registered,
 		// otherwise an early message of a fast (or misbehaving) participant reaches an uninitialized instance.
-		if err := s.initializeDKG(dkgProtocolInstance, t, UIntsToUniversalIDs(members), membership); err != nil {
+		if err := s.initializeDKG(dkgProtocolInstance, t, parties, UIntsToUniversalIDs(members), membership); err != nil {
 			s.Logger.Errorf("Failed initializing DKG: %v", err)
 			resultChan <- mpcResult{err: err}
 			return
@@ -627,12 +628,13 @@ func (s *Scheme) prepareSigning(membership *membership, parties []PartyID, topic
 	return signingProtocol, signingProtocol.SetShareData(s.StoredData)
 }
 
-func (s *Scheme) initializeDKG(dkg KeyGenerator, threshold int, members []UniversalID, membership *membership) error {
+func (s *Scheme) initializeDKG(dkg KeyGenerator, threshold int, parties []PartyID, members []UniversalID, membership *membership) error {
 	membersWithoutMe := excludeUniversal(members, s.SelfID)
+	nodeOfParty := membership.universalIDsByPartyIDs(members)
 
 	dkgTopicHash := hash([]byte(DkgTopicName))
 
-	dkg.Init(universalIDsToUInts(members), threshold, func(msg []byte, isBroadcast bool, to uint16) {
+	dkg.Init(partyIDsToUInts(parties), threshold, func(msg []byte, isBroadcast bool, to uint16) {
 		var payload []byte
 		payload = append(payload, 255)
 		payload = append(payload, msg...)
@@ -640,7 +642,12 @@ func (s *Scheme) initializeDKG(dkg KeyGenerator, threshold int, members []Univer
 			s.Send(uint8(MsgTypeMPC), dkgTopicHash, payload, membersWithoutMe...)
 			return
 		}
-		s.Send(uint8(MsgTypeMPC), dkgTopicHash, payload, membership.universalIDByPartyID(PartyID(to)))
+		dst, exists := nodeOfParty[PartyID(to)]
+		if !exists {
+			s.Logger.Warnf("Party %d does not participate in this key generation, dropping message to it", to)
+			return
+		}
+		s.Send(uint8(MsgTypeMPC), dkgTopicHash, payload, dst)
 	})
 
 	return nil
@@ -654,6 +661,7 @@ func (s *Scheme) initializeThresholdSigning(membership *membership, parties []Pa
 	}
 
 	membersWithoutMe := excludeUniversal(signers, s.SelfID)
+	nodeOfParty := membership.universalIDsByPartyIDs(signers)
 
 	signer.Init(partyIDsToUInts(parties), s.Threshold, func(msg []byte, isBroadcast bool, to uint16) {
 		var payload []byte
@@ -663,7 +671,12 @@ func (s *Scheme) initializeThresholdSigning(membership *membership, parties []Pa
 			s.Send(uint8(MsgTypeMPC), topicHash, payload, membersWithoutMe...)
 			return
 		}
-		s.Send(uint8(MsgTypeMPC), topicHash, payload, membership.universalIDByPartyID(PartyID(to)))
+		dst, exists := nodeOfParty[PartyID(to)]
+		if !exists {
+			s.Logger.Warnf("Party %d does not participate in this signing, dropping message to it", to)
+			return
+		}
+		s.Send(uint8(MsgTypeMPC), topicHash, payload, dst)
 	})
 
 	return signer, nil
